@@ -1,22 +1,29 @@
 """C08 - torch_lib operator implementations agree with PyTorch.
 
-spec/AtenOps.tla enumerates (registered overload, argument tuple in the operator's domain) cases per
-family and computes, with TLC, the ATen result (structure, element type, shape and - for the
-integer-exact families - values) and what the transcribed torch_lib lowering computes on the ONNX
-operator semantics of Tensor.tla (implementation model with named deviations).  The registry the
-spec quantifies over is the real one (get_torchlib_ops() + op_signature type constraints, dumped
-to JSON and read by TLC).  Every case is replayed
-  (i)  into torch.ops.<ns>.<op>.<overload> eager, and
-  (ii) into the registered onnxscript function, traced exactly as torch.onnx's exporter does
-       (onnxscript.evaluator.default_as(_building.OpRecorder)), and run on onnxruntime.
-VIOLATION: (ii) differs from (i) in structure / element type / shape / values (tolerance by dtype
-for float kernels).  SPEC-MISMATCH: TLC's ATen result differs from (i) or TLC's implementation
-model differs from (ii).
+spec/AtenOps.tla (operator level)
+  * the registry the spec quantifies over is the real one: get_torchlib_ops() + the declared type
+    constraints of every function (op_signature) are dumped to JSON and read by TLC (IOEnv.C08_REG);
+  * per family (elementwise binary incl. alpha / rounding_mode / comparison / bitwise, unary, where /
+    masked_fill / clamp, reductions, view family, cat..tile + constant_pad_nd, creation ops, matmul
+    family, float kernels) TLC enumerates (registered overload, argument tuple in the operator's
+    domain) and computes Aten(op, args): the ATen result - structure, element type, shape and, for the
+    integer-exact families, the values - and Low(op, args, Deviations): the transcribed torch_lib
+    lowering on the ONNX operator semantics of Tensor.tla with *named deviations*; INVARIANTs
+    AtenWellFormed, DesignOK (repaired lowering = ATen), DeviationsExplain;
+  * every case is replayed (i) into torch.ops.<ns>.<op>.<overload> eager and (ii) into the registered
+    onnxscript function, traced exactly as torch.onnx's exporter does
+    (onnxscript.evaluator.default_as(_building.OpRecorder), opset 18) and run on onnxruntime.
+    VIOLATION: (ii) is refused (trace error, model rejected at load, run-time failure) or differs from
+    (i) in structure / element type / shape / values.  onnx.reference.ReferenceEvaluator arbitrates
+    run-time refusals and shape/value differences (a kernel bug of onnxruntime is not a finding).
+    SPEC-MISMATCH: TLC's ATen result differs from (i), or TLC's implementation model from (ii).
 
-spec/AtenModule.tla: random small modules (sequences of operator applications on a tensor
-environment, `tlc -simulate`), whose results TLC also computes; each is built as a torch.nn.Module,
-exported with torch.onnx.export(dynamo=True) using THIS repository's functions
-(custom_translation_table) and compared with the module's eager outputs.
+spec/AtenModule.tla (end to end)
+  random small modules = sequences of operator applications on a tensor environment with PyTorch's
+  type promotion (`tlc -simulate`), all intermediate values computed by TLC; design invariant
+  PipelineOK checked exhaustively on short modules.  Each module is built as a torch.nn.Module,
+  exported with torch.onnx.export(dynamo=True, custom_translation_table = this repository's
+  functions) and the exported model compared with the module's eager outputs on onnxruntime.
 """
 from __future__ import annotations
 
@@ -398,13 +405,6 @@ def diff_spec(spec, got):
 
 # ------------------------------------------------------------------ TLC side
 FAMILIES = ("binary", "unary", "select", "reduce", "view", "index", "create", "matmul", "nn")
-REFUSALS = ("trace", "load", "run")
-
-
-def _cfg_text(families, wide, invariants):
-    fam = "{" + ", ".join(f'"{f}"' for f in families) + "}"
-    return ("SPECIFICATION Spec\nCONSTANTS\n  Deviations <- AllDevs\n  Wide = " + ("TRUE" if wide else "FALSE") + "\n"
-            + "".join(f"INVARIANT {i}\n" for i in invariants) + "CHECK_DEADLOCK FALSE\n"), fam
 
 
 QUICK_GROUPS = ("a", "b", "c", "d", "e")      # G_a .. G_e of AtenOps.tla: families grouped so that a quick run starts few JVMs
@@ -679,6 +679,11 @@ def replay(ctx, path):
     torch.set_num_threads(1)
     with open(path) as f:
         case = json.load(f)["case"]
+    if "prog" in case:
+        r = run_module({"env": case["env"], "prog": case["prog"]})
+        bad = "err" in r.get("onnx", {}) or ("err" not in r["torch"] and diff_results(r["torch"], r["onnx"]) is not None)
+        print(json.dumps({"module": case["module"], "torch": r.get("torch"), "onnx": r.get("onnx"), "reference": r.get("ref")}, indent=1, default=str))
+        return 1 if bad else 0
     r = run_case(case)
     kind, detail = observe(case, r)
     print(json.dumps({"call": brief(case), "spec": case["exp"], "model": case["impl"], "deviations": case["why"],
@@ -792,7 +797,7 @@ def run_module(mod):
             chain.append(f"{type(ex).__name__}: {str(ex)[:160]}")
             ex = ex.__cause__ or ex.__context__
         names = " ".join(chain)
-        kind = "capture" if "TorchExportError" in names and "ConversionError" not in names and "GraphConstructionError" not in names and "DispatchError" not in names else "export"
+        kind = "dispatch" if "DispatchError" in names and "No ONNX function found" in names else "capture" if "TorchExportError" in names and "ConversionError" not in names and "GraphConstructionError" not in names and "DispatchError" not in names else "export"
         out["onnx"] = {"err": kind, "msg": " <- ".join(chain)[:700]}
         return out
     feeds = {}
@@ -823,9 +828,10 @@ def tlc_modules(ctx, reg_path, n):
         if vac.ok:
             raise core.MachineryError("vacuity: no module step with operands of different element types is reachable in AtenModule.tla")
     w = 4
-    sim = core.run_tlc("AtenModule", "AtenModule_sim.cfg", env=env, simulate=f"num={max(1, (n + w - 1) // w)}", depth=80,
+    simcfg = "AtenModule_sim.cfg" if ctx.quick else "AtenModule_sim_thorough.cfg"
+    sim = core.run_tlc("AtenModule", simcfg, env=env, simulate=f"num={max(1, (n + w - 1) // w)}", depth=80,
                        seed=ctx.seed + 1, workers=w, timeout=2400, heap="4g")
-    ctx.tlc(sim, "AtenModule_sim.cfg (simulate)")
+    ctx.tlc(sim, simcfg + " (simulate)")
     if not sim.ok:
         raise core.MachineryError(f"TLC reports {sim.violated} in simulation of AtenModule:\n" + "\n".join(l for l in sim.out.splitlines() if not l.startswith('"C08'))[-2000:])
     mods, seen = [], set()
@@ -881,8 +887,17 @@ def judge_modules(ctx, mods, results):
         case = {"module": text, "env": mod["env"], "prog": mod["prog"], "known": known, "torch": t, "onnx": o, "ref": ref}
         verdict, what = "ok", ""
         if "err" in o:
-            if o["err"] in ("capture", "unsupported"):
+            if o["err"] in ("capture", "unsupported", "dispatch"):
+                # torch.export could not capture the module / a kernel is missing in onnxruntime / the exporter's own passes
+                # produced an overload that is not in the registry (e.g. aten.mul.Scalar): outside the quantifier
                 verdict = "discarded"
+                if o["err"] == "dispatch":
+                    import re as _re
+
+                    mm = _re.search(r"No ONNX function found for <OpOverload\(op='([^']+)', overload='([^']+)'\)", o["msg"])
+                    key = f"{mm.group(1)}.{mm.group(2)}" if mm else "?"
+                    stats.setdefault("unregistered_overloads_met", {})
+                    stats["unregistered_overloads_met"][key] = stats["unregistered_overloads_met"].get(key, 0) + 1
             elif o["err"] == "ort" and "Non-zero status code returned while running" in o["msg"] and ref_ok and not diff_results(t, ref):
                 verdict = "discarded"
             else:
